@@ -35,7 +35,10 @@ MANIFEST = dict(
          "level renderings; default and nested-namespace environments); implementation-only oracles: real-parser round trip "
          "(also after the generate phase, comparing attribute values), g++ is_same of decltype(original) vs the rendering (also "
          "with asgn_value=True) and vs cxxMeaning, g++ value comparison of every recorded array-extent expression tree with its "
-         "source text (grouping/associativity), gcc type compatibility of the C rendering. AST-rewriting operations "
+         "source text (grouping/associativity) and of the text PrintNode writes for that tree (the compiler must accept it and read "
+         "the same value: `n--1` re-parses in Shroud but is a decrement for a compiler), g++ is_same of the remove_const=True "
+         "rendering with the declared type minus the const of its base type only (volatile and pointer-level cv kept), gcc type "
+         "compatibility of the C rendering. AST-rewriting operations "
          "(Model/Rewrite.lean: set_return_to_void, _as_arg, result_as_arg, set_type/instantiate as functions on Decl, crash sites "
          "included): setReturnToVoid_resets_type (nothing of the old result type is left, template arguments included, for every "
          "declaration), setReturnToVoid_roundtrip (the rewritten declaration parses back from its rendering whatever the old result "
@@ -56,7 +59,10 @@ MANIFEST = dict(
          "with static_assert(is_same<N, ::T>) inside every scope for the type T Shroud resolves N to, and for the parameter / "
          "result types of declarations parsed inside the scope.",
     design="3 C09",
-    note="Trusted: Lean kernel (axioms propext, Classical.choice, Quot.sound); the hand-written models Model/Decl.lean, Token.lean, "
+    note="Scope: the VALUES of enumerators (ast.EnumNode.__init__: cvalue/fvalue/incr chain for implicit members) are property C11's "
+         "statement and are checked there (C11 reports seeded change C09-r6-2 with a concrete enum); C09 covers the expression parser "
+         "and printer those values are written with, through array extents. "
+         "Trusted: Lean kernel (axioms propext, Classical.choice, Quot.sound); the hand-written models Model/Decl.lean, Token.lean, "
          "CxxMeaning.lean, validated on generated inputs only (corpus, 981 systematic parameter-list shapes, 672 qualified names "
          "over a nested environment, grammar-directed declarations, single-token mutations, random token sequences); cxxMeaning "
          "as a rendering of ISO C++ for this declarator subset (validated against g++ 12 on every run); Python number formatting "
@@ -312,6 +318,12 @@ template<class Ret, class... Args> using F = Ret(Args...);
 template<class Ret, class... Args> using FC = Ret(Args...) const;
 template<class T> using C = const T;
 template<class T> using V = volatile T;
+template<class T> struct SHrc { typedef typename std::remove_const<T>::type type; };
+template<class T> struct SHrc<T*> { typedef typename SHrc<T>::type* type; };
+template<class T> struct SHrc<T* const> { typedef typename SHrc<T>::type* const type; };
+template<class T> struct SHrc<T* volatile> { typedef typename SHrc<T>::type* volatile type; };
+template<class T> struct SHrc<T* const volatile> { typedef typename SHrc<T>::type* const volatile type; };
+template<class T> struct SHrc<T&> { typedef typename SHrc<T>::type& type; };
 """
 
 
@@ -454,6 +466,17 @@ def gxx_check(ctx, cases, tag, extra_head="", meaning_op="meaning", must_accept=
                     lines.append("static_assert(std::is_same<%s, decltype(g%d::%s)>::value, \"asgn\");" % (want, i, name))
                 except Exception:  # noqa
                     pass
+                # remove_const=True: the const of the BASE type goes, whatever the indirection; volatile, the cv of every
+                # pointer level and the pointer/reference structure stay (SHrc: the compiler's own construction of that type)
+                try:
+                    rmc = a.gen_arg_as_cxx(with_template_args=True, remove_const=True)
+                    where[len(lines) + 1] = ("rmcr", i)
+                    lines.append("namespace c%d { extern %s; }" % (i, rmc))
+                    where[len(lines) + 1] = ("rmc", i)
+                    lines.append("static_assert(std::is_same<SHrc<decltype(o%d::%s)>::type, decltype(c%d::%s)>::value, \"rmconst\");" % (
+                        i, name, i, name))
+                except Exception:  # noqa
+                    pass
             # the same declaration under another name / without a name (the wrappers declare locals and prototypes so)
             try:
                 ren = a.gen_arg_as_cxx(with_template_args=True, name="SH_x")
@@ -507,6 +530,12 @@ def gxx_check(ctx, cases, tag, extra_head="", meaning_op="meaning", must_accept=
                          "declared type (pointer/reference/array) nor the declared value type without its const (%s)" % (
                              text, a.gen_arg_as_cxx(with_template_args=True, asgn_value=True),
                              b.get("asgn", b.get("asgnr"))), {"kind": "gxx", "decl": text})
+            if "rmc" in b or "rmcr" in b:
+                cls = "paren-declarator" if (a.declarator is not None and a.declarator.func is not None) else rt_class(a, text)
+                ctx.fail("gxx-remove_const:" + cls, "g++: gen_arg_as_cxx(remove_const=True) renders %r as %r, which is not the declared "
+                         "type with only the const of its base type removed (%s)" % (
+                             text, a.gen_arg_as_cxx(with_template_args=True, remove_const=True),
+                             b.get("rmc", b.get("rmcr"))), {"kind": "gxx", "decl": text})
             for k1, k2, kw, what in (("renr", "ren", dict(name="SH_x"), "name='SH_x'"), ("absr", "abs", dict(name=None), "name=None")):
                 if k1 in b or k2 in b:
                     cls = "paren-declarator" if (a.declarator is not None and a.declarator.func is not None) else rt_class(a, text)
@@ -1039,6 +1068,10 @@ def expr_shapes():
             out.append("double w [ %s %s %s %s %s ]" % (at[0], o1, at[1], o2, at[2]))
     for o1, o2, o3 in itertools.product("+-*/", repeat=3):
         out.append("int w [ n %s m %s k %s 2 ]" % (o1, o2, o3))
+    # a binary operator directly followed by a signed operand (literal or name): the printed text must keep them apart
+    for o1, sg in itertools.product("+-*/", "+-"):
+        out += ["int w [ n %s %s 1 ]" % (o1, sg), "int w [ 40 %s %s 2 ]" % (o1, sg), "int w [ n %s %s m ]" % (o1, sg),
+                "int w [ %s 3 %s %s k ]" % (sg, o1, sg)]
     out += ["int w [ n - ( m - k ) ]", "int w [ ( n - m ) - k ]", "int w [ - n - m ]", "int w [ n - - m - k ]", "int w [ n / ( m / k ) ]",
             "int w [ 2 * ( n + 1 ) - 1 ]", "void f ( int w [ n - m - k ] , double v [ 100 / 10 / 5 ] )", "int w [ n - m - k ] [ a / b * c ]"]
     return out
@@ -1050,7 +1083,10 @@ EXPR_VALUES = {"n": 20, "m": 5, "k": 3, "a": 40, "b": 4, "c": 2, "N": 11, "M": 4
 def tree_text(e):
     """the recorded expression tree, fully parenthesised (None: contains a call or an unknown name)"""
     if "constant" in e:
-        return e["constant"] if re.fullmatch(r"[0-9]+", e["constant"]) else None
+        if re.fullmatch(r"[0-9]+", e["constant"]):
+            return e["constant"]
+        # a Constant node that carries its own sign is read as that signed number
+        return "(%s)" % e["constant"] if re.fullmatch(r"[+-][0-9]+", e["constant"]) else None
     if "left" in e:
         l, r = tree_text(e["left"]), tree_text(e["right"])
         return None if l is None or r is None else "(%s %s %s)" % (l, e["op"], r)
@@ -1068,16 +1104,23 @@ def tree_text(e):
 def oracle_expr_values(ctx, cases, asts, impl):
     """Value-level comparison of the recorded expression trees with the C++ compiler: for every array extent made of
     integers, known identifiers, + - * / and parentheses, g++ must find the fully parenthesised recorded tree equal to
-    the source text (long arithmetic, identifiers bound to fixed constants)."""
+    the source text (long arithmetic, identifiers bound to fixed constants).  The text PrintNode writes for the same
+    tree (the extent as it appears in every rendering) must be accepted by g++ and have that value too: a rendering such
+    as `n--1` re-parses in Shroud (its tokenizer has no `--`) but is not the expression for a compiler."""
     _, todict = dc.mods()
     items = []
 
-    def walk(d, text):
-        for e in d.get("array", []):
+    def walk(a, text):
+        for node in getattr(a, "array", None) or []:
+            e = todict.to_dict(node)
             t = tree_text(e)
             if t is not None:
-                items.append((text, t, e))
-        for p in d.get("params", []) or []:
+                try:
+                    rendered = todict.print_node(node)
+                except Exception:  # noqa
+                    rendered = None
+                items.append((text, t, e, rendered))
+        for p in getattr(a, "params", None) or []:
             walk(p, text)
 
     def src_text(e):
@@ -1088,18 +1131,25 @@ def oracle_expr_values(ctx, cases, asts, impl):
         if a is None or not l.startswith("ok "):
             continue
         try:
-            d = todict.to_dict(a)
+            walk(a, s)
         except Exception:  # noqa
             continue
-        walk(d, s)
     # source text of each extent: take it from the declaration text itself (bracket groups in order)
     tmp = common.scratch()
-    stat = {"extents": 0, "compared": 0, "differ": 0}
+    stat = {"extents": 0, "compared": 0, "differ": 0, "renderings": 0, "renderings_compared": 0, "renderings_differ": 0}
     try:
         lines = ["constexpr long " + ", ".join("%s = %d" % kv for kv in EXPR_VALUES.items()) + ";"]
         where = {}
+        rwhere = {}
         seen = set()
-        for text, tree, e in items:
+        rseen = {}
+        for text, tree, e, rendered in items:
+            if rendered is not None and (rendered, tree) not in rseen and re.fullmatch(r"[0-9A-Za-z_+\-*/() ]+", rendered):
+                # line pair: the tree against itself (is it a constant expression at all?) and the rendering against the tree
+                lines.append("static_assert(%s == %s, \"tree\");" % (tree, tree))
+                lines.append("static_assert((%s) == %s, \"rendering\");" % (rendered, tree))
+                rseen[(rendered, tree)] = len(lines)
+                rwhere[len(lines)] = (text, rendered, tree)
             groups = re.findall(r"\[ ([^\[\]]*) \]", text)
             for gsrc in groups:
                 if not re.fullmatch(r"[0-9A-Za-z_+\-*/() ]+", gsrc) or (gsrc, tree) in seen:
@@ -1111,6 +1161,7 @@ def oracle_expr_values(ctx, cases, asts, impl):
                 where[len(lines) + 1] = (text, gsrc, tree)
                 lines.append("static_assert((%s) == %s, \"grouping\");" % (gsrc, tree))
         stat["extents"] = len(where)
+        stat["renderings"] = len(rwhere)
         src = os.path.join(tmp, "e.cpp")
         with open(src, "w") as f:
             f.write("\n".join(lines) + "\n")
@@ -1119,7 +1170,7 @@ def oracle_expr_values(ctx, cases, asts, impl):
         failed, other = set(), set()
         for m in re.finditer(r"e\.cpp:(\d+):\d+: error: (.*)", p.stdout):
             ln = int(m.group(1))
-            if ln in where:
+            if ln in where or ln in rwhere or ln + 1 in rwhere:
                 (failed if "static assertion failed" in m.group(2) else other).add(ln)
         for ln, (text, gsrc, tree) in where.items():
             if ln in other and ln not in failed:
@@ -1130,6 +1181,16 @@ def oracle_expr_values(ctx, cases, asts, impl):
                 stat["differ"] += 1
                 ctx.fail("expr-grouping", "in %r the extent `%s` is recorded as the tree %s, which g++ evaluates to a different value" % (
                     text, gsrc, tree), {"kind": "expr", "decl": text})
+        for ln, (text, rendered, tree) in rwhere.items():
+            if ln - 1 in other or ln - 1 in failed:
+                continue          # the recorded tree itself is not a constant expression (division by zero, overflow)
+            stat["renderings_compared"] += 1
+            ctx.count(1)
+            if ln in failed or ln in other:
+                stat["renderings_differ"] += 1
+                ctx.fail("expr-rendering", "in %r an extent recorded as the tree %s is written `%s`, which g++ %s" % (
+                    text, tree, rendered, "evaluates to a different value" if ln in failed else "does not accept as that expression"),
+                    {"kind": "expr", "decl": text})
     finally:
         common.rmtree(tmp)
     ctx.note("expression_values_vs_gxx", stat)
@@ -1298,7 +1359,9 @@ def run(ctx):
                        "exact comparison of outcome class, diagnostic, structure and five renderings; non-trivial = distinct accepted "
                        "structures and distinct diagnostics; rewrite family: result kinds x pointer chains x cv x parameter lists x "
                        "{set_return_to_void, _as_arg, result_as_arg, set_type, instantiate}, every rewritten declaration compared "
-                       "with the model and re-parsed from its own rendering; renamed / unnamed renderings of every g++ candidate")
+                       "with the model and re-parsed from its own rendering; every array extent: recorded tree and printed text evaluated by g++; "
+                       "asgn_value / remove_const renderings of every g++ candidate against the compiler's own construction of the type; "
+                       "renamed / unnamed renderings of every g++ candidate")
     ctx.assumptions += [
         "name lookup: qualified names through classes (`Pen::Color`), template parameter scopes and cyclic using-directives are outside the model; "
         "using-directives are compared with the real lookup only (C++ gives them a different, ambiguity-producing meaning)",
@@ -1457,4 +1520,10 @@ def replay(path):
         print(f["key"], "->", rp["decl"], "=>", line[:200])
         if a is not None and line.startswith("ok "):
             print("   roundtrip:", oracle_roundtrip(a, rp["decl"]))
+            if rp.get("kind") in ("expr", "gxx"):
+                for kw in ({}, dict(asgn_value=True), dict(remove_const=True)):
+                    try:
+                        print("   gen_arg_as_cxx(%s): %s" % (kw, a.gen_arg_as_cxx(with_template_args=True, **kw)))
+                    except Exception as e:  # noqa
+                        print("   gen_arg_as_cxx(%s) raises %s" % (kw, type(e).__name__))
     return 0
